@@ -34,10 +34,10 @@ def main(ctx):
     for (t1, t2) in pairs:
         name = "%s_%s" % (t1, t2)
         budget = 4 if t1 not in ("LINT", "ULINT", "LREAL") else 8
-        cat = logixlib.run_emit(ctx, wd, t1, t2, budget, 1, False, name)
+        cat = logixlib.run_emit(ctx, wd, t1, t2, budget, 1, False, name, foreign=True)
         cfgp = os.path.join(wd, "bundle_%s.cfg" % name)
         tlc.write_cfg(cfgp, ["INIT Init", "NEXT EmitNext", "CHECK_DEADLOCK FALSE", "CONSTANTS", ' T1 = "%s"' % t1,
-                             ' T2 = "%s"' % t2, " Budget = %d" % budget, " Depth = 0", " Rich = FALSE", " Many = FALSE",
+                             ' T2 = "%s"' % t2, " Budget = %d" % budget, " Depth = 0", " Rich = FALSE", " Many = FALSE", " Foreign = TRUE",
                              " MaxMembers = %d" % maxm, " Cfg <- MCfg", " Reqs <- MReqs", ' InitVals = "zero"',
                              " MaxDepth <- Depth"])
         res = tlc.run("MC_Bundle", cfgp, spec_dir=wd, timeout=1500)
